@@ -623,8 +623,34 @@ func (ex *Exec) sliceOp(instr *ssa.Slice, x, lo, hi, max Value) Value {
 	panic(fmt.Sprintf("slice of %T", x))
 }
 
+// OpaqueBuf marks a []byte whose content is not inspectable and whose length and capacity are free terms
+// (vr.OpaqueBytes): only len, cap and re-slicing are meaningful on it.
+type OpaqueBuf struct{ cap *Term }
+
 func (ex *Exec) sliceWindow(a []Value, n *Term, isNil bool, lo, hi, max *Term, abs any) Value {
 	tc := ex.tc
+	if ob, ok := abs.(*OpaqueBuf); ok {
+		if lo == nil {
+			lo = tc.BV(0, 64)
+		}
+		if hi == nil {
+			hi = n
+		}
+		mx := ob.cap
+		if max != nil {
+			mx = max
+		}
+		okc := tc.And(tc.And(tc.Ule(lo, hi), tc.Ule(hi, mx)), tc.Ule(mx, ob.cap))
+		if okc.IsFalse() {
+			ex.goPanicStr("runtime error: slice bounds out of range")
+		}
+		if !okc.IsConst() {
+			if ex.decide([]*Term{okc, tc.Not(okc)}, "slice-bounds") == 1 {
+				ex.goPanicStr("runtime error: slice bounds out of range")
+			}
+		}
+		return Slice{a: []Value{}, n: tc.Sub(hi, lo), abs: &OpaqueBuf{cap: tc.Sub(mx, lo)}}
+	}
 	capN := len(a)
 	if lo == nil {
 		lo = tc.BV(0, 64)
